@@ -128,6 +128,19 @@ CHECKS['C20'] = dict(
    note='schedules sampled; nested suspension inside a resumed continuation and suspension at nested dispatch levels are not separately driven',
    technique='TLA+ protocol model (safety + liveness) checked by TLC + TLC trace validation of real suspend/resume runs against SchedAbs',
    design='4 (C20)')
+CHECKS['C19'] = dict(
+   text='TLC model-checks CallOnce (collaborative_once_flag m_state word: uninitialized / done / runner pointer | transient helper references bounded by the '
+        'alignment mask, runner reference count and ready flag, set_completion_state waiting for helpers to drain, exception reset) for 3-4 callers and the '
+        'function throwing on attempts {}, {1}, {1,2}: completes exactly once, callers return only after it, one caller per exception, the runner is never touched '
+        'after its destruction, and every caller terminates under weak fairness; and ETS (table_lookup: chain of open-addressed arrays, slot claim by CAS, growth by '
+        'CAS push, re-insertion at the top level) for 3-4 threads crossing the table doublings: one element and one initialiser call per thread, no sharing, probes '
+        'bounded, a freed array never linked. Executions of the real collaborative_call_once (2-8 callers that are threads of an all-reserved arena so helpers '
+        'moonlight, function throwing on chosen attempts, nested work, retry after an exception) and of enumerable_thread_specific (both key kinds) / combinable '
+        '(2-12 threads x 3 lookups, iteration and combine_each) under seeded random and PCT-style priority cooperative schedules at atomic-access granularity are '
+        'validated by TLC against OnceAbs / EtsAbs; a crash or hang of the code under test is an event the abstract spec rejects.',
+   note='real-code schedules sampled (seeded random + priority schedules with change points biased to m_state accesses), not TLC-enumerated; sequentially consistent; the protocol models are bound to the code by the abstract events only (no step replay)',
+   technique='PlusCal protocol models (safety + liveness) checked by TLC + TLC trace validation of recorded real executions against OnceAbs / EtsAbs',
+   design='4 (C19)')
 REASON_PENDING = 'check not built yet in this round (planned in DESIGN.md section 4); no verdict is claimed'
 m = {
  'version': 1,
